@@ -4,6 +4,7 @@ package execution
 
 import (
 	"context"
+	"fmt"
 	"os"
 	"os/exec"
 	"path/filepath"
@@ -327,4 +328,41 @@ func VerifC18_I_signal_during_dependency_rerun() {
 		sym.Reach("C18.I5.signal-killed-the-dependency-rerun")
 	}
 	// (no store audit here: the scenario starts from a store that has lost a blob)
+}
+
+// C05 through the whole Executor.Execute: with fail-fast, once the build has returned (the failure was
+// observed, the walk's context is cancelled) no queued command starts any more - the tasks are bound
+// to the walk's context, not to a context that outlives the failure.
+func VerifC05_E_failfast_whole_execute() {
+	newWorld()
+	config.Global.NumWorkers = 1 + sym.Choice("workers", 2)
+	returned := false
+	startedAfterReturn := 0
+	mkCmd := func(name, out string, fails bool) {
+		cmdCtxFuncs[name] = func(ctx context.Context) ([]byte, error) {
+			if returned {
+				startedAfterReturn++
+			}
+			sym.Yield()
+			if fails {
+				return []byte("boom"), &exec.ExitError{}
+			}
+			return nil, os.WriteFile(wsPath(out), []byte("x"), 0644)
+		}
+	}
+	failing := sym.Choice("failing_target", 3)
+	var ts []*model.Target
+	for i := 0; i < 4; i++ {
+		name := fmt.Sprintf("t%d", i)
+		mkCmd("build-"+name, "p/"+name+".out", i == failing)
+		ts = append(ts, fileTarget(name, "build-"+name, name+".out"))
+	}
+	ctx := context.Background()
+	e, _ := fullExecutor(ctx, true, config.LoadOutputsAll, ts)
+	comps, err := e.Execute(ctx)
+	returned = true
+	sym.Quiesce()
+	sym.Assert(exitsNonZero(comps, err), "C05.E.fail-fast-build-exits-non-zero")
+	sym.Assert(startedAfterReturn == 0, "C05.E.no-command-starts-after-a-fail-fast-build-returned")
+	sym.Reach("C05.E.failfast")
 }
